@@ -23,6 +23,7 @@ def main():
     a = ap.parse_args()
     pid = a.pid.upper()
     tier = a.tier if a.tier in ('quick', 'thorough') else 'quick'
+    os.environ['VERIF_TIER_EFFECTIVE'] = tier
     common.use_impl()
     mod = importlib.import_module(pid.lower())
     if a.replay:
